@@ -8,6 +8,7 @@ import UpfVerif.Driver.Perio
 import UpfVerif.Driver.Config
 import UpfVerif.Driver.Buf
 import UpfVerif.Driver.Conc
+import UpfVerif.Driver.Krep
 open UpfVerif UpfVerif.Driver
 
 /-- stateless evaluators, by function name -/
@@ -18,6 +19,7 @@ def evalT (fn : String) (args : List String) (impl : String) : Option Verdict :=
   match fn with
   | "gtpu.encode" => evalGtpu args impl
   | "fd.parse" => evalFlowDesc args impl
+  | "fd.rule" => evalFlowRule args impl
   | "mal.send" =>
     some { model := "alive",
            propFails := if impl == "alive" then [] else
@@ -41,6 +43,7 @@ structure Counters where
   ps : CtlProps.PState := {}
   perio : PerioD.DState := {}
   buf : Buf.St := {}
+  krep : KrepD.KSt := {}
   lines : Nat := 0
   checked : Nat := 0
   diffs : Nat := 0
@@ -63,6 +66,7 @@ partial def loop (h : IO.FS.Stream) (c : Counters) : IO Counters := do
     let r : Option (Counters × Verdict) :=
       if fn.startsWith "tbl." then (Ctl.evalTbl c.tbl fn args res).map fun (t, v) => ({ c with tbl := t }, v)
       else if fn.startsWith "buf." then (BufD.eval c.buf fn args res).map fun (t, v) => ({ c with buf := t }, v)
+      else if fn.startsWith "krep." then (KrepD.eval c.krep fn args res).map fun (t, v) => ({ c with krep := t }, v)
       else if fn.startsWith "perio." then (PerioD.eval c.perio fn args res).map fun (t, v) => ({ c with perio := t }, v)
       else (evalT fn args res).map fun v => (c, v)
     match r with
